@@ -690,19 +690,28 @@ static void stat_cell(uint64_t idx, Rng& r) {
   // the stream is a fixed function of the cell index (not of VERIF_SEED); the trial seeds come from r
   Rng sr(0xC16C0000ULL + idx);
   WGen g; g.init(sr, c.kind, c.n);
+  // moderate spreads only: with weights spread over many orders of magnitude the estimator's variance is
+  // carried by events rarer than 1/T and a T-trial mean cannot be judged by its empirical standard error
+  g.geometric = false;
+  if (c.kind == K_EXPSPREAD) g.p1 = 3.0;
+  if (c.kind == K_HEAVYTAIL) g.p1 = 1.5;
   std::vector<double> w(c.n);
-  long double total = 0, truth = 0;
-  for (int i = 0; i < c.n; ++i) { w[i] = g.next(sr, i, 0, 0); total += w[i]; if (i & 1) truth += w[i]; }
+  long double total = 0, truth = 0, truth_late = 0;
+  const uint64_t half = static_cast<uint64_t>(c.n / 2);
+  for (int i = 0; i < c.n; ++i) { w[i] = g.next(sr, i, 0, 0); total += w[i]; if (i & 1) truth += w[i]; if (static_cast<uint64_t>(i) >= half) truth_late += w[i]; }
+  // second predicate, asymmetric in stream position (a bias in how late arrivals are kept cancels under id parity)
+  auto pred_late = [half](const Item& it) { return id_of(it) >= half; };
   // for unions: item i goes to sketch i % split, sketch j has k = c.k + 3*j (different k)
-  double mean = 0, m2 = 0;
+  double mean = 0, m2 = 0, mean_l = 0, m2_l = 0;
   for (uint64_t t = 0; t < trials; ++t) {
     random_utils::rand.seed(r.next());
-    double est, est_all;
+    double est, est_all, est_late;
     if (c.split == 0) {
       VO s(c.k);
       for (int i = 0; i < c.n; ++i) s.update(mk(static_cast<uint64_t>(i)), w[i]);
       est = s.estimate_subset_sum(pred_odd).estimate;
       est_all = s.estimate_subset_sum(pred_always).estimate;
+      est_late = s.estimate_subset_sum(pred_late).estimate;
     } else {
       std::vector<VO> sks;
       for (int j = 0; j < c.split; ++j) sks.emplace_back(c.k + 3 * j);
@@ -712,18 +721,29 @@ static void stat_cell(uint64_t idx, Rng& r) {
       VO s = u.get_result();
       est = s.estimate_subset_sum(pred_odd).estimate;
       est_all = s.estimate_subset_sum(pred_always).estimate;
+      est_late = s.estimate_subset_sum(pred_late).estimate;
     }
     VF_CHECK(close_rel(est_all, total, REL), c.split ? "union|result|subset_sum|always-estimate-not-total-weight" : "sketch|subset_sum|always-estimate-not-total-weight",
              "trial=" + std::to_string(t) + " est=" + str(est_all) + " total=" + str(static_cast<double>(total)));
     const double dlt = est - mean;
     mean += dlt / static_cast<double>(t + 1);
     m2 += dlt * (est - mean);
+    const double dl = est_late - mean_l;
+    mean_l += dl / static_cast<double>(t + 1);
+    m2_l += dl * (est_late - mean_l);
   }
   const double var = m2 / static_cast<double>(trials - 1);
   const double se = std::sqrt(var / static_cast<double>(trials));
   const double dev = std::fabs(mean - static_cast<double>(truth));
   VF_CHECK(dev <= 4.5 * se + 1e-9 * static_cast<double>(total), c.split ? "union|result|subset-sum-estimate-biased" : "sketch|subset-sum-estimate-biased",
-           "mean=" + str(mean) + " truth=" + str(static_cast<double>(truth)) + " se=" + str(se) + " dev/se=" + str(se > 0 ? dev / se : 0.0) + " trials=" + std::to_string(trials));
+           "predicate=odd-id mean=" + str(mean) + " truth=" + str(static_cast<double>(truth)) + " se=" + str(se) + " dev/se=" + str(se > 0 ? dev / se : 0.0) + " trials=" + std::to_string(trials));
+  {
+    const double var_l = m2_l / static_cast<double>(trials - 1);
+    const double se_l = std::sqrt(var_l / static_cast<double>(trials));
+    const double dev_l = std::fabs(mean_l - static_cast<double>(truth_late));
+    VF_CHECK(dev_l <= 4.5 * se_l + 1e-9 * static_cast<double>(total), c.split ? "union|result|subset-sum-estimate-biased" : "sketch|subset-sum-estimate-biased",
+             "predicate=second-half-of-stream mean=" + str(mean_l) + " truth=" + str(static_cast<double>(truth_late)) + " se=" + str(se_l) + " dev/se=" + str(se_l > 0 ? dev_l / se_l : 0.0) + " trials=" + std::to_string(trials));
+  }
   VF_CHECK(var > 0, "harness|unbiasedness-cell-degenerate", "variance 0: the cell does not sample");
   count(c.split ? "unbiasedness_cells_union" : "unbiasedness_cells_sketch");
   count("unbiasedness_trials", trials);
